@@ -721,6 +721,10 @@ class _ExprMixin:
 
     def getslice(self, base, lo, hi, st, node=None):
         base = self.simp(base)
+        if isinstance(base, Ite):
+            return ite(base.c, self.getslice(base.a, lo, hi, st, node), self.getslice(base.b, lo, hi, st, node))
+        if isinstance(base, Undef):
+            return base
         if isinstance(base, Const) and all(isinstance(x, Const) for x in (lo, hi, st)):
             try:
                 return Const(base.v[slice(lo.v, hi.v, st.v)])
@@ -934,6 +938,10 @@ class _CallMixin:
                 pass
         if name == "format":
             return str_format(recv, args, kwargs)
+        if name in ("startswith", "endswith") and isinstance(recv, Op) and recv.op in ("fmt", "concat") and len(args) == 1 and is_const(args[0], str):
+            edge = recv.args[0] if name == "startswith" else recv.args[-1]
+            if is_const(edge, str) and len(edge.v) >= len(args[0].v):
+                return Const(getattr(edge.v, name)(args[0].v))
         if name == "join":
             lo = self.as_list(args[0]) if args else None
             if lo is not None and is_const(recv, str):
@@ -1203,6 +1211,14 @@ class _CallMixin:
         covered = or_(*fr.ret_conds)
         if covered == TRUE:
             return _strip_undef(ret)
+        try:
+            from .pelx import unsat
+            # does some path fall off the end of the function?  (no exception so far is assumed)
+            assumptions = [not_(d) for d in fr.rdead]
+            if unsat(and_(not_(covered), *assumptions), budget=1 << 10)[0]:
+                return _strip_undef(ret)
+        except AnalysisError:
+            pass
         return _strip_undef(ret, NONE)
 
     def ev_in_module(self, node, modname):
@@ -1750,8 +1766,16 @@ class _LoopMixin:
                     L.trip, elem = sub(a[1], a[0]), add(a[0], L.idx)
                 else:
                     L.trip, elem = Op("rangelen", *a), add(a[0], mul(a[2], L.idx))
+            elif isinstance(it, Op) and it.op == "zip":
+                lens = []
+                for a in it.args:
+                    ln = self.x_len([a], {}, None)
+                    if ln not in lens:
+                        lens.append(ln)
+                L.trip = lens[0] if len(lens) == 1 else Op("min", *lens)
+                elem = self.elem_of(it, L)
             elif isinstance(it, Op) and it.op == "enumerate":
-                L.trip = Op("len", it.args[0])
+                L.trip = self.x_len([it.args[0]], {}, None)
                 start = it.args[1] if len(it.args) > 1 else Const(0)
                 elem = self.mk_list([add(start, L.idx), self.elem_of(it.args[0], L)], "tuple")
             else:
@@ -1895,6 +1919,10 @@ class _LoopMixin:
         """i-th element of the iterated object.  A list that was filled by exactly one
         unconditional append per iteration of an earlier loop yields that loop's
         element term (re-indexed); anything else stays opaque."""
+        if isinstance(it, Op) and it.op == "zip":
+            return self.mk_list([self.elem_of(a, L) for a in it.args], "tuple")
+        if isinstance(it, Op) and it.op == "reversed":
+            return Op("elem", it, L.idx)
         if isinstance(it, Ref):
             o = self.heap.get(it.oid)
             if isinstance(o, ListObj) and len(o.items) == 1 and o.items[0][0] == "rep":
